@@ -284,6 +284,10 @@ static void run_backup_M(Report & R, bool thorough)
     backup_probe<N, M, double, double>(R, thorough);
     backup_probe<N, M, long, double>(R, thorough);
     backup_probe<N, M, unsigned, double>(R, thorough);
+    // coordinate types that do not convert losslessly to the output type (a range test performed on a converted
+    // coordinate would misjudge values one ulp outside a bound)
+    backup_probe<N, M, double, float>(R, thorough);
+    backup_probe<N, M, float, int>(R, thorough);
 }
 template <size_t N>
 static void run_backup(Report & R, bool thorough)
